@@ -118,6 +118,7 @@ LEAVES = [
     "&amp;", "&#35;", "\\*x", "<http://a.b>", "<a@b.c>", "~~s~~", "a_b_c", "\"q\" 'r'", "(c) ... --", "http://x.y",
     "  a", "   a", " - a", "  - b", "   - c", "    - d", "  1. x", "   > z", "\\", "`", "* * a", "- # h", "> ```", "- ```",
     ">     c", "- \x0c", "1. \u3000", "- \xa0", "> \x0b", "\x0c", "\u2028", "-\x0c\n- b", "². a", "①) a", "٣. a", "1２. a", "-\ta", ">\ta", "1.\ta", "[a]: /u \"t", "[a]: <u", "[", "]", "![", "](", "\"", "'", "a\u00a0", "\u00a0a", "\x0bx",
+    "\u00a0# h", "\u00a0> q", "\u00a0- a", "\u00a0\u00a0\u00a0\u00a0code", "\x0c# h", "\u3000- a", "\u2003> q", "\x0b    c", "\u00a01. a", "\u2028# h", "\x1f- a", "\u00a0```", "\ufeff# h", "\ufeff    code", "\ufeff<div>", "\ufeff> q",
     "######", "#######", "########", "############", "####### ", "#######\t", "   #######", "## ##", "#######\\", "1234567890.", "123456789)", "10. a", "99) b",
 ]
 CONTAINER_PREFIXES = [
@@ -706,8 +707,14 @@ SURROGATES = ["\ud800", "\udc00", "\udc00\ud800", "\ud83d", "\ude00", "\udfff\ud
 _SPLIT_PAIR = re.compile("([\ud800-\udbff])([\udc00-\udfff])")
 
 
+FORMAT_PREFIXES = ["\ufeff", "\ufeff", "\u200b", "\u2060", "\u00ad", "\u200e", "\ufffe", "\u180e"]
+
+
 def any_doc_d(d: D, tabs: bool = True, maxdepth: int = 3) -> str:
     s = _any_doc_d(d, tabs, maxdepth)
+    if d.chance(0.02):
+        # a byte order mark or another invisible format character as the very first character of the input
+        s = d.pick(FORMAT_PREFIXES) + s
     if SURROGATE_RATE and d.chance(SURROGATE_RATE):
         for _ in range(d.i(1, 3)):
             i = d.i(0, len(s))
